@@ -121,6 +121,19 @@ func checkShape(c *fw.Ctx, tag string, parallel bool, p engParams, ev []scripted
 			lowestDest = int(e.TTL)
 		}
 	}
+	// C06, at the engine boundary: once a destination reply has been handed to the engine (for whichever TTL) no probe is
+	// handed to the driver at a later virtual instant (the serial engine sends only after a wait has ended; the parallel
+	// sender re-checks after every pause; a send at the very same instant is the one already in flight)
+	destAt := time.Duration(-1)
+	for _, e := range ev {
+		if e.Kind == "reply" && e.Dest && destAt < 0 {
+			destAt = e.At
+		}
+		if e.Kind == "send" && destAt >= 0 && e.At > destAt {
+			c.Violate("C06", "send-after-dest/engine-"+engName(parallel), fmt.Sprintf("%s: probe for TTL %d handed to the driver at %v, a destination reply had been handed to the engine at %v", tag, e.TTL, e.At, destAt), map[string]any{"first": p.first, "last": p.last, "events": ev})
+			break
+		}
+	}
 	end := int(p.last)
 	if lowestDest >= 0 {
 		end = lowestDest
